@@ -63,6 +63,11 @@ var untypedCollectionInterface = reflect.TypeOf((*b6.UntypedCollection)(nil)).El
 
 // Convert v to type t, if possible. Doesn't convert functions.
 func Convert(v reflect.Value, t reflect.Type, w b6.World) (reflect.Value, error) {
+	if v.Kind() == reflect.Interface && !v.IsNil() {
+		// Functions declared as returning interface{} leave a value whose
+		// static type is the interface; convert what it holds.
+		v = v.Elem()
+	}
 	if v.Type().AssignableTo(t) {
 		return v, nil
 	} else if v.CanConvert(t) {
